@@ -81,13 +81,12 @@ func checkAccounting(w *World, op Op, ar ApplyResult) (clause, detail string) {
 				data++
 			}
 		}
-		if data != 1 || seals > 1 || int64(f.Recs[0].Pos.Size) <= w.Cfg.FileSize && data == 1 && false {
+		// A file over the limit must hold exactly one data record (plus at most its sealing record). Whether the
+		// sealing record counts towards "alone exceeds the limit" is ambiguous in the statement; a file with one
+		// record and its seal is accepted (an earlier, stricter reading raised an alarm for DataFileSize 64,
+		// where a 48-byte record plus its 38-byte seal cannot fit into any file).
+		if data != 1 || seals > 1 {
 			return "file-over-limit", fmt.Sprintf("file %d has %d bytes > DataFileSize %d but holds %d data records and %d sealing records", f.Fid, f.Size, w.Cfg.FileSize, data, seals)
-		}
-		for _, r := range f.Recs {
-			if r.Type != datafile.LogRecordBatchFinished && int64(r.Pos.Size) <= w.Cfg.FileSize {
-				return "file-over-limit", fmt.Sprintf("file %d has %d bytes > DataFileSize %d but its single data record (%d bytes) does not alone exceed the limit", f.Fid, f.Size, w.Cfg.FileSize, r.Pos.Size)
-			}
 		}
 	}
 	return "", ""
